@@ -1344,7 +1344,9 @@ def run(ctx):
                     g = got[i] if i < len(got) else "(missing)"
                     if not line_matches(g, w):
                         diff = "after %s:\n      got      %s\n      expected %s" % (" ".join(hist[:i + 0]) or "(start)", g, w)
-                        first = hist[i - 1] if i else "init"
+                        gf = dict(t.split("=", 1) for t in g.split() if "=" in t)
+                        wf = dict(t.split("=", 1) for t in w.split() if "=" in t)
+                        first = "%s fields=%s" % (hist[i - 1] if i else "init", ",".join(sorted(k for k in wf if gf.get(k) != wf[k])) or "line")
                         break
                 # keyed by the operation after which the implementation first departs from the model
                 ctx.violation("fortran F_CFI first departure at %s" % first, "Fortran history %s with F_CFI: %s%s" % (" ".join(hist), diff or "exit %d" % rc, ("  stderr: " + se[-200:]) if rc else ""),
